@@ -292,6 +292,9 @@ func expectedAsserts(P *Program, H *Harness) []string {
 					continue
 				}
 				if callee.Pkg != nil && callee.Pkg.Pkg.Path() == P.rtPath && (callee.Name() == "Assert" || callee.Name() == "AssertKnown") {
+					if k0, isC := c.Common().Args[0].(*ssa.Const); isC && k0.Value != nil && k0.Value.ExactString() == "false" {
+						continue // Assert(false, …) marks a place that must be unreachable
+					}
 					if k, ok := c.Common().Args[1].(*ssa.Const); ok {
 						ids[strings.Trim(k.Value.ExactString(), "\"")] = true
 					}
